@@ -246,62 +246,87 @@ def rule_SS3(ctx, rep):
     else:
         rep.bad('SS3', fn, st, 'the random coefficients are not drawn inside the loop over the secrets: all secrets of a batch share one '
                 'polynomial tail, so share differences reveal secret differences')
-    # Horner: y = (y + c_j) * i1 over all coefficients, then + secret, stored at row i1-1
-    ploops = [l for l in iter_nodes(fn.node) if isinstance(l, ast.For) and _range_bounds(l.iter) is not None
-              and _range_bounds(l.iter)[0] == Lin(1) and _range_bounds(l.iter)[1] == Lin.sym(mp)]
-    if len(ploops) != 1:
-        rep.bad('SS3', fn, fn.qualname, f'evaluation points are not exactly 1..{mp} (one per party)', fn.node)
-        return
-    pl = ploops[0]
-    xv = pl.target.id
-    cl = [l for l in iter_nodes(pl) if isinstance(l, ast.For) and l is not pl and cname and norm(l.iter) == cname]
+    # Horner: y = (y + c_j) * x over all coefficients, then + secret, stored in the row of the party with point x
+    from . import routes
+    cl = [l for l in iter_nodes(fn.node) if isinstance(l, ast.For) and cname and norm(l.iter) == cname]
     if len(cl) != 1:
-        rep.bad('SS3', fn, pl, 'the evaluation does not run over all drawn coefficients')
+        rep.bad('SS3', fn, fn.qualname, 'the evaluation does not run over all drawn coefficients', fn.node)
         return
-    cv = cl[0].target.id
+    cv = cl[0].target.id if isinstance(cl[0].target, ast.Name) else None
     body = cl[0].body
-    good = len(body) == 1 and isinstance(body[0], ast.Assign) and isinstance(body[0].targets[0], ast.Name)
+    good = cv is not None and len(body) == 1 and isinstance(body[0], ast.Assign) and isinstance(body[0].targets[0], ast.Name)
+    xv = acc = None
     if good:
         acc = body[0].targets[0].id
         v = body[0].value
         good = isinstance(v, ast.BinOp) and isinstance(v.op, ast.Mult)
         if good:
             a, b = v.left, v.right
-            if norm(b) != xv:
+            if not isinstance(b, ast.Name) or isinstance(a, ast.Name):
                 a, b = b, a
-            good = norm(b) == xv and isinstance(a, ast.BinOp) and isinstance(a.op, ast.Add) and \
+            good = isinstance(b, ast.Name) and isinstance(a, ast.BinOp) and isinstance(a.op, ast.Add) and \
                 sorted([norm(a.left), norm(a.right)]) == sorted([acc, cv])
+            xv = b.id if good else None
     if good:
         rep.ok('SS3', fn, body[0], 'Horner step: every coefficient is multiplied by the evaluation point (positive powers only)')
     else:
         rep.bad('SS3', fn, cl[0], 'the evaluation loop is not the Horner step y = (y + c_j) * x: some coefficient does not carry a positive power of x '
                 '(the constant term is no longer exactly the secret / a coefficient is unused)')
         return
+    # the evaluation point ranges over 1..m, one per party
+    binders, _g = routes._context(fn, cl[0], pm)
+    xb = [b for b in binders if xv in b.names()]
+    pl = xb[-1].node if xb else None
+    rows_tbl = None        # name of the table whose rows are enumerated together with the point
+    pts_ok = False
+    if xb and xb[-1].kind == 'range':
+        pts_ok = xb[-1].lo == Lin(1) and xb[-1].hi == Lin.sym(mp)
+    elif xb and xb[-1].kind == 'enum' and xb[-1].pos == xv and xb[-1].start == 1 and isinstance(xb[-1].src, ast.Name):
+        # enumerate(<table with one row per party>, start=1)
+        tbl = astq.sole_definition(fn.node, xb[-1].src.id)
+        if isinstance(tbl, ast.ListComp) and len(tbl.generators) == 1 and _range_bounds(tbl.generators[0].iter) \
+                and _range_bounds(tbl.generators[0].iter)[1] == Lin.sym(mp) - 1:
+            pts_ok = True
+            rows_tbl = (xb[-1].src.id, xb[-1].elem)
+    if not pts_ok:
+        rep.bad('SS3', fn, pl if pl is not None else fn.qualname, f'evaluation points are not exactly 1..{mp} (one per party)', fn.node)
+        return
     # accumulator reset per evaluation point
-    resets = [s for s in pl.body if isinstance(s, ast.Assign) and norm(s.targets[0]) == acc and astq.position(s) < astq.position(cl[0])]
+    ci = [k for k, s_ in enumerate(pl.body) if s_ is cl[0] or any(x is cl[0] for x in ast.walk(s_))]
+    ci = ci[0] if ci else len(pl.body)
+    resets = [s for s in pl.body[:ci] if isinstance(s, ast.Assign) and norm(s.targets[0]) == acc]
     if resets:
         rep.ok('SS3', fn, resets[0], 'accumulator reset for every evaluation point')
     else:
         rep.bad('SS3', fn, pl, 'the Horner accumulator is not reset for every evaluation point')
-    stores = [s for s in pl.body if isinstance(s, ast.Assign) and isinstance(s.targets[0], ast.Subscript) and astq.position(s) > astq.position(cl[0])]
+    stores = [s for s in pl.body[ci + 1:] if isinstance(s, ast.Assign) and isinstance(s.targets[0], ast.Subscript)]
     good = False
     if len(stores) == 1:
         tgt = stores[0].targets[0]
-        row = tgt.value.slice if isinstance(tgt.value, ast.Subscript) else None
-        val = stores[0].value
+        val = routes.xp(fn, stores[0].value, stores[0], pm)
         if isinstance(val, ast.BinOp) and isinstance(val.op, ast.Mod):
             val = val.left
-        rl = to_lin(row, opaque=False) if row is not None else None
+        row_ok = False
+        if isinstance(tgt.value, ast.Subscript):
+            rl = to_lin(tgt.value.slice, opaque=False)
+            row_ok = rl is not None and rl == Lin.sym(xv) - 1
+        elif rows_tbl is not None and isinstance(tgt.value, ast.Name) and tgt.value.id == rows_tbl[1]:
+            row_ok = True          # the row enumerated together with its point (start=1)
         sec = None
         if isinstance(val, ast.BinOp) and isinstance(val.op, ast.Add):
             other = [x for x in (val.left, val.right) if norm(x) != acc]
             if len(other) == 1:
                 sec = other[0]
-        if rl is not None and rl == Lin.sym(xv) - 1 and sec is not None:
-            sv = resolve_value(fn.node, sec)
+        if row_ok and sec is not None:
             # the secret of this iteration (loop variable of the secrets loop, possibly .value)
             tnames = set(astq.assigned_names(sloops[0].target)) if sloops else set()
-            if {n.id for n in ast.walk(sec) if isinstance(n, ast.Name)} & tnames:
+            secx = routes.xp(fn, sec, stores[0], pm)
+            names = {n.id for n in ast.walk(secx) if isinstance(n, ast.Name)}
+            for nm in list(names):
+                for st_, v_, how_ in definitions(fn.node, nm):
+                    if v_ is not None:
+                        names |= {n.id for n in ast.walk(v_) if isinstance(n, ast.Name)}
+            if names & tnames:
                 good = True
     if good:
         rep.ok('SS3', fn, stores[0], 'constant term is the secret; the share for evaluation point x is stored in row x-1')
@@ -573,10 +598,39 @@ def rule_SO1(ctx, rep):
 
 
 # ---------------------------------------------------------------------------------- SS7
+def _row_aliasing(ctx, rep, rule, modules=('thresha',)):
+    """Two-level accumulators (`sums[r][h] += ..`, `shares[i][h] = ..`) must have distinct row objects: a table built by
+    replicating one row (`[row] * k`) makes every row the same list, so all rows end up with the sum over all of them."""
+    model = ctx.model
+    n = 0
+    for k, fn in sorted(model.funcs.items()):
+        if k.split('::')[0] not in modules:
+            continue
+        two_level = set()
+        for s in iter_nodes(fn.node):
+            tg = s.targets[0] if isinstance(s, ast.Assign) and len(s.targets) == 1 else (s.target if isinstance(s, ast.AugAssign) else None)
+            if isinstance(tg, ast.Subscript) and isinstance(tg.value, ast.Subscript) and isinstance(tg.value.value, ast.Name):
+                two_level.add(tg.value.value.id)
+        for name in sorted(two_level):
+            for st, v, how in definitions(fn.node, name):
+                if v is None or how != 'assign':
+                    continue
+                n += 1
+                if isinstance(v, ast.BinOp) and isinstance(v.op, ast.Mult):
+                    lst = v.left if isinstance(v.left, ast.List) else (v.right if isinstance(v.right, ast.List) else None)
+                    if lst is not None and lst.elts and not isinstance(lst.elts[0], ast.Constant):
+                        rep.bad(rule, fn, st, f'the rows of {name} are one and the same list object ({norm(v)}): an update of {name}[r][h] changes every row, so for '
+                                'more than one row each row accumulates the contributions of all rows')
+                        continue
+                rep.ok(rule, fn, st, f'rows of the two-level table {name} are distinct objects')
+    return n
+
+
 def rule_SS7(ctx, rep):
     """Lagrange recombination vector: numerator and denominator factors are oriented alike, taken over
     all j != i; list and array recombination use the same vector with the same default point."""
     model = ctx.model
+    _row_aliasing(ctx, rep, 'SS7')
     fn = model.func('thresha::_recombination_vector')
     pm = parents(fn.node)
     fieldp, xsp, xrp = fn.params[:3]
@@ -726,14 +780,21 @@ def rule_PR1(ctx, rep):
                 rep.bad('PR1', f, pc[0], f'{norm(cnt)} values drawn per subset instead of n*d')
     # list zero variant: Horner over range(d) with stride d
     pm = parents(f0.node)
-    hl = [l for l in iter_nodes(f0.node) if isinstance(l, ast.For) and _range_bounds(l.iter) and norm(l.iter) != f'range({f0.params[5]})']
+    hl = [l for l in iter_nodes(f0.node) if isinstance(l, ast.For) and isinstance(l.iter, ast.Call) and isinstance(l.iter.func, ast.Name) and l.iter.func.id == 'range'
+          and norm(l.iter) != f'range({f0.params[5]})']
     hl = [l for l in hl if any(isinstance(s, ast.Assign) and isinstance(s.value, ast.BinOp) and isinstance(s.value.op, ast.Mult) for s in l.body)]
     good = False
     if len(hl) == 1:
-        rb = _range_bounds(hl[0].iter)
+        it = hl[0].iter
+        rb = None
+        if isinstance(it, ast.Call) and len(it.args) in (1, 2):
+            los = to_lin(it.args[0], opaque=True) if len(it.args) == 2 else Lin(0)
+            his = to_lin(it.args[-1], opaque=True)
+            if los is not None and his is not None:
+                rb = (los, his - 1)
         jv = norm(hl[0].target)
         st = hl[0].body[0]
-        if rb[0] == Lin(0) and rb[1] == Lin.sym('d') - 1 and len(hl[0].body) == 1:
+        if rb is not None and (rb[1] - rb[0]) == Lin.sym('d') - 1 and len(hl[0].body) == 1:
             v = st.value
             a, b = v.left, v.right
             i1 = [s for s in iter_nodes(f0.node) if isinstance(s, ast.Assign) and _plus_one_party(s.value) is not None and norm(_plus_one_party(s.value)) == f0.params[2]]
@@ -743,8 +804,11 @@ def rule_PR1(ctx, rep):
                 if idx and hloop:
                     hv = norm(hloop[0].target)
                     il = to_lin(idx[0].slice, opaque=True)
-                    if il is not None and il.t.get(jv) == 1 and il.t.get(f'<{hv} * d>') == 1 and len(il.t) == 2 and il.c == 0:
-                        good = True
+                    if il is not None and il.coef(jv) == 1:
+                        # the indices visited for secret h are exactly h*d .. h*d + d - 1
+                        first = _subst(il, jv, rb[0])
+                        if first in (Lin.sym(f'<{hv} * d>'), Lin.sym(f'<d * {hv}>')):
+                            good = True
     if good:
         rep.ok('PR1', f0, hl[0], 'all d values of a secret are used, as coefficients of x^1..x^d (Horner with a final multiplication)')
     else:
